@@ -8,7 +8,7 @@ Init == blk \in 0..(NB - 1) /\ off = 0
 Next == off < BS - 1 /\ off' = off + 1 /\ UNCHANGED blk
 Idx == blk * BS + off + 1
 
-Names == << "flatten", "fold", "cfold", "collect", "expand", "expand_nc", "expand_p" >>
+Names == << "flatten", "fold", "cfold", "collect", "expand", "expand_nc", "expand_p", "cfold_reused", "expand_reused" >>
 Report ==
     Idx <= Len(Recs) =>
       LET rec == Recs[Idx]
